@@ -201,6 +201,11 @@ RACES = [
      "[CJoin 1 1 [1; 2]]", [("m", 1, 3), ("ms", 1, 4)],
      [rep("LT 0", 8), rep("LX 1", 20), rep("LT 0", 20)],
      [("j", 1, 1, [1, 2]), ("x", 1)]),
+    ("REAL stop + wait() returned while join has released the entry but not yet notified (observation: Join after Leave)",
+     "race m 1 3;ms 1 4 | start A j 1 1 1,2 @join.released | stop 1 | go A",
+     "[CJoin 1 1 [1; 2]]", [("m", 1, 3), ("ms", 1, 4)],
+     [rep("LT 0", 8), rep("LX 1", 20), rep("LT 0", 20)],
+     [("j", 1, 1, [1, 2]), ("x", 1)]),
     ("exit between the unlocked filter and the entry acquisition of join",
      "race m 1 3 | start A j 1 1 1,2 @join.filtered | start B x 1 | go A",
      "[CJoin 1 1 [1; 2]]", [("m", 1, 3)],
@@ -246,6 +251,26 @@ def run_races(chk, build, rounds, only=None):
         iv = canon(parse_term(impl[k])[1])
         chk.coverage["evaluations"] += 1
         chk.count("race." + name)
+        # observation (not judged: the property does not order notifications of different calls):
+        # a monitor handles the automatic Leave of an actor and only later the Join naming it
+        evs = parse_term(impl[k])[1][8]
+        seen_obs = False
+        for l in {e[1] for e in evs}:
+            mine = [e for e in evs if e[1] == l]
+            for i1, e1 in enumerate(mine):
+                for e2 in mine[i1 + 1:]:
+                    if e1[2] == "false" and e2[2] == "true" and e1[3:5] == e2[3:5] and set(e1[5]) <= set(e2[5]):
+                        chk.count("observation.join_delivered_after_leave_of_same_actor")
+                        seen_obs = True
+                        note = f"observation: monitor {l} got Leave {e1[5]} then Join {e2[5]} for key {e1[3:5]} in: {line}"
+                        if note not in chk.notes:
+                            chk.notes.append(note)
+        if "@join.released" in line and not seen_obs:
+            # documented behaviour of the unchanged code (corpus/C11/races.txt): the Join is sent after
+            # the entry was released, so it arrives after the exit's Leave; a change shows up here
+            chk.violation("race: documented notification order (Leave of the exited actor, then the Join naming it) no longer observed",
+                          "correspondence E2:pg race event order differs from the documented one (oracle accepts)\n" + line
+                          + "\nevents: " + show_term(evs), failing_input=False)
         desc = f"{line}\nrace: {name}\nimplementation final view: {show_term(parse_term(impl[k])[1])}\nmodel final view: {vals[2 * k]}\n"
         if vals[2 * k + 1].strip() != "true":
             bad.append(("999" in show_term(parse_term(impl[k])[1]),
